@@ -121,6 +121,9 @@ RECURSIVE Modelled(_)
 Modelled(pipe) ==
     \A i \in 1..Len(pipe) :
         /\ pipe[i].op \in ModelOps
+        \* user functions that are not functions of the item are outside the implementation model
+        /\ ("f" \in DOMAIN pipe[i] => pipe[i].f.n # "seqc")
+        /\ ("closing" \in DOMAIN pipe[i] => pipe[i].closing.n # "every2")
         /\ (IsKeyer(pipe[i]) => Modelled(pipe[i].inner))
         /\ (IsTee(pipe[i]) => \A b \in 1..Len(pipe[i].branches) : Modelled(pipe[i].branches[b]))
 
